@@ -84,3 +84,26 @@ def minfo(t):
         return 'ok %s %s %s' % (vlib.ec_hex(ec), opt_hex(st), opt_hex(ver))
     except Exception as e:  # noqa
         return 'exc ' + vlib.exc_name(e)
+
+
+def fld(job):
+    """(version, text, name, strict, ec_chars) -> parse_field(...).to_er7(ec)"""
+    from hl7apy.parser import parse_field
+    v, t, name, strict, chars = job
+    ec = ec_dict(chars)
+    try:
+        return 'ok ' + vlib.hexs(parse_field(t, name=name, version=v, encoding_chars=ec, validation_level=vlib.level(strict)).to_er7(ec))
+    except Exception as e:  # noqa
+        return 'exc ' + vlib.exc_name(e)
+
+
+def comp(job):
+    """(version, text, name, datatype, strict, ec_chars) -> parse_component(...).to_er7(ec)"""
+    from hl7apy.parser import parse_component
+    v, t, name, dt, strict, chars = job
+    ec = ec_dict(chars)
+    try:
+        return 'ok ' + vlib.hexs(parse_component(t, name=name, datatype=dt, version=v, encoding_chars=ec,
+                                                 validation_level=vlib.level(strict)).to_er7(ec))
+    except Exception as e:  # noqa
+        return 'exc ' + vlib.exc_name(e)
